@@ -264,10 +264,19 @@ pub fn gen_main<B: BaseF>(s: &Shape) -> Vec<Vec<B>> {
 
 /// honest auxiliary trace: aux0: next = cur * (main0 + r0); aux1: next = cur * (main_{1 % w} + r_last) + main0
 pub fn gen_aux<B: BaseF, E: FieldElement<BaseField = B>>(s: &Shape, main: &ColMatrix<B>, rands: &[E]) -> Vec<Vec<E>> {
+    gen_aux_from::<B, E>(s, main, rands, None)
+}
+
+/// `other_start = Some(c)`: column c starts at 2 instead of 1 and then follows its rule, so every
+/// auxiliary transition holds and only the auxiliary assertion on that column is violated
+pub fn gen_aux_from<B: BaseF, E: FieldElement<BaseField = B>>(s: &Shape, main: &ColMatrix<B>, rands: &[E], other_start: Option<usize>) -> Vec<Vec<E>> {
     let (aw, _) = s.aux.expect("shape has no auxiliary segment");
     let n = s.n;
     let w = s.width();
     let mut cols = vec![vec![E::ONE; n]; aw];
+    if let Some(c) = other_start {
+        cols[c][0] = E::ONE.double();
+    }
     for i in 0..n - 1 {
         let m0: E = main.get(0, i).into();
         cols[0][i + 1] = cols[0][i] * (m0 + rands[0]);
@@ -504,8 +513,10 @@ impl<B: BaseF, H: ElementHasher<BaseField = B> + Sync + Send> Prover for GenProv
 
     #[maybe_async]
     fn build_aux_trace<E: FieldElement<BaseField = B>>(&self, trace: &GenTrace<B>, aux_rand_elements: &AuxRandElements<E>) -> ColMatrix<E> {
-        let mut cols = gen_aux::<B, E>(&self.claimed.shape, trace.main_segment(), aux_rand_elements.rand_elements());
-        if let Some((c, r)) = self.aux_fault {
+        // aux_fault = (c, usize::MAX): column c starts from another value (only its assertion breaks)
+        let other_start = self.aux_fault.filter(|f| f.1 == usize::MAX).map(|f| f.0);
+        let mut cols = gen_aux_from::<B, E>(&self.claimed.shape, trace.main_segment(), aux_rand_elements.rand_elements(), other_start);
+        if let Some((c, r)) = self.aux_fault.filter(|f| f.1 != usize::MAX) {
             cols[c][r] += E::ONE;
         }
         ColMatrix::new(cols)
